@@ -1320,9 +1320,14 @@ Definition pool_rule (cfg : config) (st : state) (o : op) : Prop :=
   | _ => True
   end.
 
-Definition pledged_rule (st : state) (o : op) (st' : state) : Prop :=
+Definition pledged_rule (cfg : config) (st : state) (o : op) (st' : state) : Prop :=
   match o with
   | OWithdraw _ lid _ amt _ => holds_C08_pledged st st' lid amt = true
+  | ORepayWithdraw u bid e _ =>
+      (* RepayWithdraw withdraws exactly the collateral its CloseBorrow half released: [st1] is the state
+         after that half, in which the position is closed and its collateral is available again *)
+      exists st1 b0, zget (borrows st) bid = Some b0 /\ close_borrow cfg st u bid e = Ok st1 /\
+                     zget (borrows st1) bid = None /\ (holds_C08_pledged st1 st' (b_lend b0) (b_in b0) = true)
   | OCloseLend _ lid _ =>
       zget (lends st') lid = None /\
       match zget (lends st) lid with Some l0 => holds_C08_pledged st st' lid (l_avail l0) = true | None => False end
